@@ -69,6 +69,28 @@ func gen(tier string, rng *h.Rng, emit func(string)) {
 			emit(fmt.Sprintf("sign %s %s", sk, msgs[rng.Intn(len(msgs))]))
 		}
 	}
+	// the coordinate splitters on what is NOT a well-formed emitted value (review 4-C06 #5): short and over-long
+	// signatures for ToBigInt, identity keys in every accepted form for decodePubKey
+	{
+		E := bnref.Enc1(validSig(sks[4], []byte("split")))
+		for _, n := range []int{0, 1, 31, 32, 33, 63, 64, 65, 96} {
+			emit("split " + h.Hex(cat(E, E)[:n]))
+		}
+		for i := 0; i < pick(6, 30); i++ {
+			emit("split " + h.Hex(rng.Bytes(rng.Intn(100))))
+		}
+		for _, how := range []string{"mul", "fresh", "sum", "unm", "null", "sub", "unz", "unj", "new"} {
+			emit("dpk 0 " + how)
+		}
+		for _, how := range []string{"mul", "fresh", "sum", "unm"} {
+			emit(fmt.Sprintf("dpk %s %s", sks[rng.Intn(len(sks)-1)+1], how))
+			emit(fmt.Sprintf("dpk %s %s", rm1, how))
+		}
+		// key pairs as the library makes them (bls.NewKeyPair on a seeded stream)
+		for i := 0; i < pick(6, 40); i++ {
+			emit(fmt.Sprintf("kp %s %s", h.Hex(rng.Bytes(1+rng.Intn(16))), msgs[rng.Intn(3)]))
+		}
+	}
 	// verification: valid signatures and their mutations
 	big1MiB := 0
 	for _, sk := range sks {
@@ -123,7 +145,7 @@ func gen(tier string, rng *h.Rng, emit func(string)) {
 	// call histories on shared mutable objects (hist.go)
 	genHistories(thorough, rng, emit, sks)
 	// concurrent use of one key object (bls.Verify must not write to its arguments)
-	for i := 0; i < pick(4, 12); i++ {
+	for i := 0; i < pick(6, 16); i++ {
 		sk := sks[4+rng.Intn(len(sks)-4)]
 		if i == 3 {
 			sk = rm1
@@ -138,6 +160,10 @@ func gen(tier string, rng *h.Rng, emit func(string)) {
 			sig, rounds = bnref.Enc1(bnref.Neg1(S)), pick(60, 200)
 		case 3: // single goroutine: inputs and key unmodified
 			rounds, n = 20, 1
+		case 4: // other goroutines marshal / Equal / decodePubKey the shared key meanwhile
+			mode, rounds, n = "mul+m", pick(150, 500), 5
+		case 5:
+			mode, rounds, n = "sum+m", pick(100, 300), 5
 		}
 		emit(fmt.Sprintf("conc %s %s %s %s %d %d", sk, ms, h.Hex(sig), mode, rounds, n))
 	}
